@@ -211,9 +211,10 @@ static void finishGroup() {
       // a FromNow() landed on the scheduler's "disabled" value in one of the runs: that deadline is armed 1 ms later (documented slack)
       if (a.sparse) { C.count("c13_pairs_skipped_sentinel_sparse"); continue; }
       std::vector<Ev> ea = events(a), eb = events(b);
-      // an event in the last 2 ms of the script may fall outside the other run's (1 ms later) window
-      { uint64_t end = a.endRel < b.endRel ? a.endRel : b.endRel; while (!ea.empty() && ea.back().t + 2 >= end) ea.pop_back(); while (!eb.empty() && eb.back().t + 2 >= end) eb.pop_back(); }
-      bool ok = ea.size() == eb.size(); std::string firstDiff = "event counts " + std::to_string(ea.size()) + " / " + std::to_string(eb.size());
+      // an event in the last 2 ms of the script may fall outside the other run's (1 ms later) window: surplus events at the very end are allowed
+      uint64_t end = a.endRel < b.endRel ? a.endRel : b.endRel;
+      bool ok = true; std::string firstDiff = "event counts " + std::to_string(ea.size()) + " / " + std::to_string(eb.size());
+      { const std::vector<Ev> &lg = ea.size() > eb.size() ? ea : eb; size_t mn = ea.size() < eb.size() ? ea.size() : eb.size(); for (size_t i = mn; i < lg.size(); i++) if (lg[i].t + 2 < end) ok = false; }
       for (size_t i = 0; i < ea.size() && i < eb.size(); i++) { uint64_t d = ea[i].t > eb[i].t ? ea[i].t - eb[i].t : eb[i].t - ea[i].t; if (ea[i].f != eb[i].f || d > 1) { ok = false; firstDiff = "event " + std::to_string(i) + ": +" + std::to_string(ea[i].t) + " " + ea[i].f + " / +" + std::to_string(eb[i].t) + " " + eb[i].f; break; } }
       if (!ok && (a.boundary || b.boundary)) { C.count("c13_pairs_skipped_sentinel_at_grid_boundary"); continue; }
       C.count(ok ? "c13_pairs_within_1ms_sentinel" : "c13_pairs_sentinel_beyond_1ms");
